@@ -1,9 +1,82 @@
 """C15 — parsing and serialization round-trip."""
 import json, random, glob, os
 from collections import Counter
-import common, docrun, gen, pool, docs
+import common, docrun, gen, pool, docs, drv
 
 M = 2 ** 256
+THEOREMS = ["Plain.hexVal_hexStr", "Plain.decVal_decStr", "Plain.hexVal_zeros", "Plain.decVal_zeros", "Plain.hexVal_0x",
+            "Plain.hexVal_hexStrU", "Plain.spelling_value", "Plain.parse_step", "Plain.parse_print", "Plain.opOf_num_value"]
+
+PLAIN_OPS = ["ADD", "MUL", "SUB", "MSTORE", "MLOAD", "SSTORE", "SLOAD", "KECCAK256", "JUMP", "JUMPI", "JUMPDEST", "STOP", "RETURN",
+             "REVERT", "POP", "DUP1", "DUP16", "SWAP1", "SWAP16", "ISZERO", "CALLVALUE", "CALLDATALOAD", "GAS", "LOG2", "NOT", "EQ"]
+KEYWORDS = ["[tag]", "#[$]", "[$]", "data"]
+
+
+def hexes(rng, c):
+    """hexadecimal spellings of c"""
+    h = "%x" % c
+    return rng.choice([h, h.upper(), "0" + h, "000" + h, "0x" + h, "0x0" + h, "0x" + h.upper(), "0X" + h])
+
+
+def token_stream(rng, malformed):
+    """one plain text: mostly well-formed items; `malformed` plants one defect (missing operand, operand that is not a number)"""
+    items = []
+    libs = ["libA", "libB", "libC"]
+    for _ in range(rng.randrange(1, 9)):
+        c = rng.choice([0, 1, 9, 10, 15, 16, 255, 256, 0xdead, 2 ** 64, 2 ** 255, M - 1, rng.randrange(0, M), rng.randrange(0, 300)])
+        n = max(1, (c.bit_length() + 7) // 8)
+        k = rng.randrange(0, 16)
+        if k == 0:
+            items.append(rng.choice(PLAIN_OPS))
+        elif k == 1:
+            items.append("PUSH " + hexes(rng, c))
+        elif k == 2:
+            items.append("PUSH%d 0x%s" % (rng.choice([n, min(32, n + 1), 32]), rng.choice(["%x", "%X", "0%x", "00%x"]) % c))
+        elif k == 3:
+            items.append("PUSH%d %s%d" % (rng.choice([n, 32]), rng.choice(["", "0", "000"]), c))
+        elif k == 4:
+            items.append("PUSH0")
+        elif k == 5:
+            items.append("PUSH %s %s" % (rng.choice(KEYWORDS), hexes(rng, c)))
+        elif k == 6:
+            items.append(rng.choice(["PUSHSIZE", "PUSHDEPLOYADDRESS"]))
+        elif k == 7:
+            items.append("PUSHLIB " + rng.choice(libs))
+        elif k == 8:
+            items.append("PUSHIMMUTABLE " + hexes(rng, c))
+        elif k == 9:
+            items.append("ASSIGNIMMUTABLE " + ("%x" % c))
+        elif k == 10:
+            items.append("tag %d" % rng.randrange(0, 300))
+        elif k == 11:
+            items.append(rng.choice(["PUSH [tag] %d" % rng.randrange(0, 99), "PUSH data %064x" % rng.randrange(0, M)]))
+        else:
+            items.append(rng.choice(PLAIN_OPS))
+    if malformed:
+        bad = rng.choice(["PUSH", "PUSH1", "PUSH [tag]", "PUSH zz", "PUSH1 0xzz", "PUSH1 abc", "PUSH 0x", "PUSH1 0x", "PUSH05 1", "PUSHX",
+                          "PUSH2 1f", "tag", "PUSHLIB", "PUSH #[$]", "PUSH 12g", "PUSH1 0X1F", "PUSHIMMUTABLE", "ASSIGNIMMUTABLE", "PUSH1 1.5",
+                          "PUSH00 3", "PUSH1 ", "PUSH [tag] zz", "PUSHDATA 5", "PUSHSIZEX", "tagX 4", "PUSH0x 5", "PUSH01 0x5"])
+        pos = rng.choice([len(items), rng.randrange(0, len(items) + 1)])
+        items.insert(pos, bad)
+    sep = rng.choice([" ", " ", "  ", "\n", " \n "])
+    return sep.join(items)
+
+
+def plain_corpus():
+    """deterministic part: every spelling family of boundary constants, each keyword, each mnemonic class"""
+    out = []
+    for c in [0, 1, 9, 10, 15, 16, 17, 255, 256, 4095, 65535, 65536, 2 ** 32, 2 ** 64 - 1, 2 ** 128, 2 ** 255, M - 1]:
+        n = max(1, (c.bit_length() + 7) // 8)
+        h, d = "%x" % c, "%d" % c
+        out += ["PUSH " + h, "PUSH " + h.upper(), "PUSH 0" + h, "PUSH 0000" + h, "PUSH 0x" + h, "PUSH 0x00" + h, "PUSH 0X" + h,
+                "PUSH%d 0x%s" % (n, h), "PUSH%d 0x%s" % (n, h.upper()), "PUSH32 0x%064x" % c, "PUSH%d %s" % (n, d), "PUSH%d 0%s" % (n, d),
+                "PUSH%d 000%s" % (min(32, n + 1), d), "PUSH32 " + d]
+        for kw in KEYWORDS:
+            out += ["PUSH %s %s" % (kw, h), "PUSH %s 0x%s" % (kw, h), "PUSH %s 00%s" % (kw, h.upper())]
+        out += ["PUSHIMMUTABLE " + h, "ASSIGNIMMUTABLE " + h, "tag " + d, "PUSHLIB " + h]
+    out += ["PUSH0", "PUSH0 PUSH0 ADD", "PUSHSIZE", "PUSHDEPLOYADDRESS", "PUSHLIB a PUSHLIB b PUSHLIB a PUSHLIB c PUSHLIB b", "JUMP", "JUMPI",
+            "tag 1 JUMPDEST", "PUSH [tag] 1 JUMP", "", " ", "ADD", "PUSH", "PUSH1", "PUSH 1 PUSH", "PUSH [tag]", "PUSH #[$]", "tag"]
+    return out
 
 
 def spellings(c):
@@ -36,8 +109,30 @@ def run(tier):
     for p0 in (True, False):
         tasks.append({"kind": "plain_roundtrip", "texts": blocks, "push0": p0, "timeout": 200})
         tasks.append({"kind": "plain_roundtrip", "texts": [t for t, _ in sp], "push0": p0, "spell": True, "timeout": 200})
+    # (d) the plain-text reader against its Lean model (Models/Plain.lean), text by text
+    po = common.proof_obligations("GasolVerif.Proofs.PlainSound", THEOREMS)
+    violations += [{"kind": "broken-proof-obligation", "what": b, "no_failing_input": True, "input": b} for b in po["broken"]]
+    texts = plain_corpus() + [token_stream(rng, i % 4 == 0) for i in range(1500 if tier == "quick" else 40000)]
+    CH = 500
+    ops_tasks = [{"kind": "plain_ops", "texts": texts[i:i + CH], "timeout": 200} for i in range(0, len(texts), CH)]
+    tasks += ops_tasks
     res = pool.run_tasks(tasks, timeout=200)
     samples = []
+    real_rows = []
+    for t, r, st in res:
+        if t["kind"] == "plain_ops":
+            if st != "ok" or r is None or "harness_error" in (r or {}):
+                raise common.MachineryError("worker failed on plain_ops: %s %s" % (st, (r or {}).get("harness_error")))
+            real_rows += r["rows"]
+    res = [x for x in res if x[0]["kind"] != "plain_ops"]
+    model_rows = drv.batch(["PLAINPARSE\t" + tx.replace("\n", "\x01") for tx in texts])
+    mism = []
+    for tx, a, b in zip(texts, real_rows, model_rows):
+        c["reader-texts"] += 1
+        c["reader-" + ("error" if a == "error" else "ok")] += 1
+        if a != b:
+            mism.append((tx, a, b))
+    print_items = []
     for t, r, st in res:
         if st != "ok" or r is None or "harness_error" in (r or {}):
             raise common.MachineryError("worker failed on %s: %s %s" % (t["kind"], st, (r or {}).get("harness_error")))
@@ -63,6 +158,8 @@ def run(tier):
                         return ("PUSH", 0)           # a zero push, however it is spelled
                     return (d, int(v, 16) if d == "PUSH" and v is not None else v)
                 return [[one(d, v) for d, v in b] for b in blocks_]
+            if not t.get("spell"):
+                print_items += [(t["push0"], [(d, v) for d, v in b]) for b in row["items"] if b]
             row["again"], row["again_bytes"], row["items"] = nrm(row["again"]), nrm(row["again_bytes"]), nrm(row["items"])
             if row["again"] != row["items"]:
                 violations.append({"kind": "plain-round-trip-differs", "input": row["text"],
@@ -80,13 +177,67 @@ def run(tier):
                 if val != want:
                     violations.append({"kind": "constant-spelling-changes-value", "input": row["text"],
                                        "what": "%r parses to %r, expected the constant %#x" % (row["text"], got, want)})
+    # (e) the printer against its Lean model, and the round-trip theorem's premise (`covered`) on real blocks
+    def enc(items):
+        return "|".join("%s~%s" % (d, "-" if v is None else "s:%s" % v) for d, v in items)
+    ptasks = [{"kind": "plain_print", "push0": p0, "blocks": [it for q, it in print_items if q == p0], "timeout": 200} for p0 in (True, False)]
+    pres = pool.run_tasks(ptasks, timeout=200)
+    for t, r, st in pres:
+        if st != "ok" or r is None or "harness_error" in (r or {}):
+            raise common.MachineryError("worker failed on plain_print: %s %s" % (st, (r or {}).get("harness_error")))
+        its = t["blocks"]
+        outs = drv.batch(["PLAINPRINT\t%s\t%s" % ("1" if t["push0"] else "0", enc(it)) for it in its])
+        for it, real, o in zip(its, r["rows"], outs):
+            c["printed-blocks"] += 1
+            text, cv, rt = (o.split("\t") + ["", ""])[:3]
+            c["print-" + rt] += 1
+            a, b_ = cv.split("/") if "/" in cv else ("0", "0")
+            c["items-covered-by-parse_print"] += int(a); c["items-printed"] += int(b_)
+            if real != text:
+                mism.append(("to_plain(push0=%s) of %s" % (t["push0"], it), real, text))
+            if rt == "roundtrip-BROKEN":
+                violations.append({"kind": "broken-proof-obligation", "no_failing_input": True, "input": enc(it),
+                                   "what": "Lean model: parse(print(B)) differs from B.map opOf although B is covered (contradicts Plain.parse_print): %s" % enc(it)})
+    flagged = {v.get("input") for v in violations}
+
+    def value_differs(a, b):
+        """the two op lists have the same shape and some numeric PUSH value differs: a constant is read as another number"""
+        xs, ys = a.split("|"), b.split("|")
+        if a in ("error",) or b in ("error",) or len(xs) != len(ys):
+            return False
+        for x, y in zip(xs, ys):
+            (nx, _, vx), (ny, _, vy) = x.partition("~"), y.partition("~")
+            if nx != ny:
+                return False
+            if vx != vy:
+                try:
+                    if vx.startswith("s:") and vy.startswith("s:") and int(vx[2:], 16) != int(vy[2:], 16):
+                        return True
+                except ValueError:
+                    return False
+        return False
+    for tx, a, b in mism[:50]:
+        violations.append({"kind": "plain-reader-differs-from-model", "input": tx, "no_failing_input": not (tx in flagged or value_differs(a, b)),
+                           "what": "correspondence Models/Plain.lean <-> parser_asm/asm_bytecode broken on %r: real code gives %r, model gives %r "
+                                   "(theorems spelling_value / parse_print are about the model)" % (tx, a, b)})
+    c["reader-mismatches"] = len(mism)
     cov = {"evaluations": c["documents"] + c["plain-texts"], "distinct_nontrivial": c["documents"] + c["plain-texts"],
            "rule": "all shipped and test documents (size-limited in quick), synthesized documents with nested data, contracts without asm, every "
                    "pseudo-push kind and optional fields, each under PUSH0 on/off: to_json(parse(D)) = D modulo the PUSH0 spelling; generated "
                    "blocks: parse(to_plain(B)) = B and parse(to_plain_with_byte_number(B)) = B; seven spellings of each constant",
-           "samples": samples or [{"n": 0}], "counters": dict(c)}
-    return {"level": "exploration", "coverage": cov, "violations": violations,
-            "assumptions": ["no Lean theorem backs this check: it is a differential round-trip (see DESIGN.md, C15)"]}
+           "samples": samples or [{"n": 0}], "counters": dict(c), "obligations": po["obligations"], "discharged": po["discharged"],
+           "axioms": po["axioms"], "programs": c["reader-texts"] + c["printed-blocks"], "disagreements_checked": c["reader-mismatches"],
+           "checker_cmd": "cd lean && lake build GasolVerif gvdrv; #print axioms " + ", ".join(THEOREMS),
+           "trusted_base": ["Lean 4.33 kernel", "axioms: propext, Classical.choice, Quot.sound",
+                            "Models/Plain.lean as the meaning of plain_instructions_to_asm_representation and AsmBytecode.to_plain (validated text by text)",
+                            "tokenisation at blanks/newlines, Python int() on signs/underscores/non-ASCII digits (outside the model, not generated)",
+                            "the JSON reader/writer (parse_asm, to_json) has no model: clause one of the property is differential only"]}
+    cov["rule"] += ("; the plain-text reader and printer are compared with their Lean model on a deterministic corpus of spellings/keywords/mnemonic "
+                    "classes plus generated token streams (one in four with a planted defect), and on every item of the generated blocks")
+    return {"level": "proof", "coverage": cov, "violations": violations,
+            "assumptions": ["clauses two and three (plain text) are Lean theorems about Models/Plain.lean tied to the code by exact correspondence; "
+                            "clause one (JSON round trip) is a differential check without a theorem",
+                            "PUSHLIB items and JUMP items carrying a value are outside Plain.parse_print (counted under items-printed minus items-covered)"]}
 
 
 def replay(v):
